@@ -371,7 +371,12 @@ def witness_search(tier, seed):
              "#VERSION:0.83;#DISPLAYBPM:1:2;#NOTEDATA:;#DISPLAYBPM:90:180;#ATTACKS:a:b:c;#attacks;#NOTES:0000;#NOTEDATA:;#ATTACKS:x:y;",
              # multi-value properties whose first component is empty (a falsy value that is not "no value")
              "#DISPLAYBPM::180;#ATTACKS::TIME=1.5:LEN=2:MODS=drunk;#TITLE::t;",
-             "#VERSION:0.83;#ATTACKS::;#NOTEDATA:;#DISPLAYBPM::90;#ATTACKS::a;#NOTES:0000;"]
+             "#VERSION:0.83;#ATTACKS::;#NOTEDATA:;#DISPLAYBPM::90;#ATTACKS::a;#NOTES:0000;",
+             # the first parameter far down the text (comments and blank lines before it), and a long file: nothing about
+             # the rules depends on where in the text a parameter stands
+             "// header\n" * 70 + "\n" * 30 + "#VERSION:0.83;\n#TITLE:far;\n#NOTEDATA:;\n#STEPSTYPE:x;\n#NOTES:0000;\n",
+             "\n" * 300 + "#version:0.83;#TITLE:t;",
+             "// c\n" * 100 + "#TITLE:sm;\n#NOTES:a:b:c:d:e:f;\n" + "#KEY%d:v;\n" * 3 % (1, 2, 3) + "#NOTES:a:b:c:d:e:f;\n" * 40]
     for text, stray, strict in itertools.product(texts, ("", "junk\n"), (True, False)):
         for fk, en, nm in (("StringIO", "load", None), ("lines", "load", None), ("string", "loads", None),
                            ("string", "ctor-string", None), ("StringIO", "ctor-file", None),
